@@ -168,8 +168,11 @@ const TAKE_FOLD: u32 = 14; // for_each (built on fold): full result
 const TAKE_COUNT: u32 = 13; // count(): only the number of items is seen
 const TAKE_LAST: u32 = 12; // last(): only the last item is seen
 const TAKE_NTH1: u32 = 11; // nth(1): skips one item, yields the second, rest is dropped unconsumed
+const TAKE_NEXT_FOLD: u32 = 10; // one next(), the rest through for_each: full result (an override must resume correctly)
+const TAKE_NEXT_COUNT: u32 = 9; // one next(), the rest through count()
+const TAKE_ALL_FORGET: u32 = 8; // loop over next() to the end, then the iterator is leaked (mem::forget) instead of dropped
 fn take_is_full(take: u32) -> bool {
-    take >= TAKE_LAST
+    take >= TAKE_LAST || take == TAKE_NEXT_FOLD || take == TAKE_NEXT_COUNT || take == TAKE_ALL_FORGET
 }
 
 fn op_ins(ri: u8, e: u8) -> u32 {
@@ -318,6 +321,9 @@ where
                     let mut got: Vec<SV> = vec![];
                     let mut it = tree.iter_by_range(r, tq);
                     let mut seen_count: Option<usize> = None;
+                    // size_hint is part of the iterator protocol: callers such as `extend` ask before the first
+                    // item; it must at least be safe to call in every state (only the process outcome is judged)
+                    let _ = it.size_hint();
                     if take == TAKE_ALL {
                         for v in &mut it {
                             got.push(v);
@@ -325,6 +331,36 @@ where
                                 break;
                             }
                         }
+                        // an exhausted iterator may be asked again: nothing more, and no crash
+                        let _ = it.size_hint();
+                        if let Some(v) = it.next() {
+                            got.push(v);
+                        }
+                    } else if take == TAKE_ALL_FORGET {
+                        for v in &mut it {
+                            got.push(v);
+                            if got.len() > 1000 {
+                                break;
+                            }
+                        }
+                        // leaking a value is safe Rust: a fully consumed query stays fully consumed
+                        std::mem::forget(it);
+                        return (got, seen_count);
+                    } else if take == TAKE_NEXT_FOLD {
+                        if let Some(v) = it.next() {
+                            got.push(v);
+                        }
+                        let _ = it.size_hint();
+                        it.for_each(|v| got.push(v));
+                        return (got, seen_count);
+                    } else if take == TAKE_NEXT_COUNT {
+                        let first = it.next();
+                        let had = first.is_some() as usize;
+                        if let Some(v) = first {
+                            got.push(v);
+                        }
+                        seen_count = Some(had + it.count());
+                        return (got, seen_count);
                     } else if take == TAKE_FOLD {
                         it.for_each(|v| got.push(v));
                         return (got, seen_count);
@@ -364,7 +400,7 @@ where
                         let mut g: Vec<u8> = got.iter().map(|v| v.id).collect();
                         g.sort();
                         cx.evals += 1;
-                        if self.f.o_query && take == TAKE_COUNT {
+                        if self.f.o_query && (take == TAKE_COUNT || take == TAKE_NEXT_COUNT) {
                             if seen_count != Some(want.len()) {
                                 cx.violate(prop, "query", format!("iter_by_range(range #{ri}, time {tq}).count() = {seen_count:?}, reference says {} items {want:?}", want.len()));
                             }
@@ -375,7 +411,7 @@ where
                                 cx.violate(prop, "partial-query", format!("{} of iter_by_range(range #{ri}, time {tq}) = {g:?}, full reference answer {want:?}", if take == TAKE_LAST { "last()" } else { "nth(1)" }));
                             }
                         } else if self.f.o_query {
-                            if take == TAKE_ALL || take == TAKE_FOLD {
+                            if take == TAKE_ALL || take == TAKE_FOLD || take == TAKE_NEXT_FOLD || take == TAKE_ALL_FORGET {
                                 if g != want {
                                     cx.violate(prop, "query", format!("iter_by_range(range #{ri} {:?}, time {tq}) yielded ids {g:?}, reference says {want:?}", self.ranges[ri as usize]));
                                 }
@@ -496,7 +532,7 @@ where
                     }
                 }
                 if self.f.partial || self.f.styles {
-                    for k in [TAKE_FOLD, TAKE_COUNT, TAKE_LAST, TAKE_NTH1] {
+                    for k in [TAKE_FOLD, TAKE_COUNT, TAKE_LAST, TAKE_NTH1, TAKE_NEXT_FOLD, TAKE_NEXT_COUNT, TAKE_ALL_FORGET] {
                         out.push(op_q(ri, t, k));
                     }
                 }
@@ -617,7 +653,7 @@ where
             K_INS => format!("Ins(r{},{})", (o >> 8) & 0xff, o & 0xff),
             K_Q => {
                 let take = o & 0xf;
-                format!("Q(r{},{},{})", (o >> 8) & 0xff, (o >> 4) & 0xf, match take { TAKE_ALL => "all".to_string(), TAKE_FOLD => "fold".to_string(), TAKE_COUNT => "count".to_string(), TAKE_LAST => "last".to_string(), TAKE_NTH1 => "nth1".to_string(), _ => take.to_string() })
+                format!("Q(r{},{},{})", (o >> 8) & 0xff, (o >> 4) & 0xf, match take { TAKE_ALL => "all".to_string(), TAKE_FOLD => "fold".to_string(), TAKE_COUNT => "count".to_string(), TAKE_LAST => "last".to_string(), TAKE_NTH1 => "nth1".to_string(), TAKE_NEXT_FOLD => "next+fold".to_string(), TAKE_NEXT_COUNT => "next+count".to_string(), TAKE_ALL_FORGET => "all+forget".to_string(), _ => take.to_string() })
             }
             K_CLEAR => "Clear()".into(),
             K_RESTART => "ClearRestart()".into(),
@@ -630,7 +666,7 @@ where
         Some(match name {
             "Ins" => op_ins(args.first()?.trim_start_matches('r').parse().ok()?, args.get(1)?.parse().ok()?),
             "Q" => {
-                let take = match *args.get(2)? { "all" => TAKE_ALL, "fold" => TAKE_FOLD, "count" => TAKE_COUNT, "last" => TAKE_LAST, "nth1" => TAKE_NTH1, x => x.parse().ok()? };
+                let take = match *args.get(2)? { "all" => TAKE_ALL, "fold" => TAKE_FOLD, "count" => TAKE_COUNT, "last" => TAKE_LAST, "nth1" => TAKE_NTH1, "next+fold" => TAKE_NEXT_FOLD, "next+count" => TAKE_NEXT_COUNT, "all+forget" => TAKE_ALL_FORGET, x => x.parse().ok()? };
                 op_q(args.first()?.trim_start_matches('r').parse().ok()?, args.get(1)?.parse().ok()?, take)
             }
             "Clear" => K_CLEAR << 24,
